@@ -212,6 +212,19 @@ CLAIMED = {
         'note': TB + ' Assumes the legal move generator is correct (C01). Does not decide that a corrupt file never yields a legal-but-wrong move.',
         'technique': 'custom static analysis: validated-candidate typestate with per-iteration flag reset, dominance, inverse switch tables, constant evaluation, index-bound structure',
     },
+    'C19': {
+        'text': 'Clause-limited static decision (level "other"): (1) link pairing - every addChild(m, c) on a parent is paired on all paths with '
+                'c->addParent(m, parent) with the same move, and only the two link functions modify the link containers; (2) save/load '
+                'agreement - serialize and deSerialize pass the same field list in the same order with the full buffer size, and the file '
+                'readers/writers transfer exactly one record per node through them; (3) change detection - every old-value snapshot in '
+                'computeNegaMax / computePathError is compared with the field it was taken from, every recomputed field is snapshotted, and '
+                'updateScores tests every "changed" result. Right level: these are the structural necessary conditions of "links mutually '
+                'consistent", "save/reload reproduces the book" and "changes propagate"; the fixed-point equations themselves are '
+                'value-level over a DAG and are not claimed.',
+        'design_ref': 'DESIGN.md section 2, C19',
+        'note': TB + ' Does not decide that scores are at the fixed point of the negamax / path-error / cost equations.',
+        'technique': 'custom static analysis: call pairing on the CFG, who-may-write, sibling agreement of serialiser argument lists, snapshot/compare agreement',
+    },
 }
 
 _PENDING = 'rules for this property are not implemented yet in this revision of /verif (planned clauses: DESIGN.md section 2); not claimed until they are'
